@@ -5,8 +5,8 @@
    validated per run (bin/check C15 evaluates est_ok inside Coq on every network the real code
    returns).  Only pinned statements here; proofs in proofs/{TrackNetP,EstNetP,EstTimeP,OrdP}.v. *)
 From Coq Require Import Reals List Bool Arith ZArith Floats Uint63.
-From AltModel Require Import Num TrackNet EstNet.
-From AltProofs Require Import TrackNetP EstNetP EstTimeP OrdP.
+From AltModel Require Import Num TrackNet EstNet EstUpdate.
+From AltProofs Require Import TrackNetP EstNetP EstTimeP OrdP EstUpdateP.
 Import ListNotations.
 Open Scope nat_scope.
 
@@ -62,3 +62,17 @@ Example C15_example_passes :
     [mkC 0 false 0 []; mkC 1 false 0 []; mkC 2 false 1 [1]; mkC 3 false 1 []; mkC 4 false 2 [2];
      mkC 5 false 2 []; mkC 6 true 0 []; mkC 7 true 0 []] = true.
 Proof. vm_compute. reflexivity. Qed.
+
+(* ---- the two shortest-path passes of make_est_times (update_times_forward / update_times_backward), modelled as
+   executable functions (coq/model/EstUpdate.v: priority queues, re-linking of join and split nodes, time shifts)
+   and tied to the code bit-exactly on the node array make_est_times hands them (hook H3, kind update_times).
+   Whatever they re-link and re-time - for every input array, every departure time, every float type - the number of
+   nodes is unchanged and every node still stands for the same track event (link, event type) with the same
+   alternate links: the passes only choose which of the existing edges is the primary one and when. ---- *)
+Theorem C15_update_passes_keep_events :
+  forall (F : Type) (NO : NumOps F) fuel (ns : list (enode (F:=F))) set t0 ns',
+  update_times fuel ns set t0 = Ok ns' ->
+  length ns' = length ns /\
+  forall i a a', nth_error ns i = Some a -> nth_error ns' i = Some a' ->
+    n_link a' = n_link a /\ n_ty a' = n_ty a /\ n_nexta a' = n_nexta a /\ n_preva a' = n_preva a.
+Proof. intros F NO. exact (@update_times_frame F NO). Qed.
